@@ -714,6 +714,18 @@ def getCodeHash (s : ADB) (a : Addr) : ADB × Hash :=
 
 def getLogs (s : ADB) (th : Hash) : List LogRec := (mget s.logs th).getD []
 
+/-- `CanTransfer(addr, amount)` for a non-negative amount: `GetBalance(addr) >= amount` -/
+def canTransfer (c : Cfg) (s : ADB) (a : Addr) (n : Nat) : ADB × Bool :=
+  let r := getBalance c s a; (r.1, decide (r.2 ≥ n))
+
+/-- `IsContract(addr)`: `GetCode` is non-nil and non-empty -/
+def isContract (s : ADB) (a : Addr) : ADB × Bool :=
+  let r := getCode s a; (r.1, !r.2.isEmpty)
+
+/-- `GetState(addr, hash)`: `GetData` through `common.BytesToHash` -/
+def getState (s : ADB) (a : Addr) (k : Key) : ADB × Hash :=
+  let r := getData s a k; (r.1, toHash r.2)
+
 /-- `common.BytesToAddress` (`Address.SetBytes`): longer input is cropped from the left to 20 bytes, shorter input
     is copied to the FRONT, i.e. right-padded with zeros (unlike `BytesToHash`, which left-pads) -/
 def toAddr (b : Bytes) : Addr :=
